@@ -15,7 +15,7 @@ import time
 
 VERIF = os.path.dirname(os.path.dirname(os.path.abspath(__file__)))
 REPO = os.environ.get("VF_REPO", "/repo")
-DEPS = os.path.join(VERIF, ".deps")
+DEPS = os.environ.get("VF_DEPS", os.path.join(VERIF, ".deps"))
 EVIDENCE_DIR = os.environ.get("VF_EVIDENCE_DIR", os.path.join(VERIF, "evidence"))
 REPLAY_DIR = os.environ.get("VF_REPLAY_DIR", os.path.join(VERIF, "replays"))
 KNOWN_FINDINGS = os.path.join(VERIF, "known_findings.json")
